@@ -40,6 +40,7 @@ def strategy(tier):
         "tomos_a": st.lists(st.integers(1, 5), min_size=1, max_size=4, unique=True),
         "tomos_b": st.lists(st.integers(1, 5), min_size=1, max_size=4, unique=True),
         "tomo_base": st.sampled_from([0, 0, 0, 230100, 1000000]),
+        "b_ids_restart": st.sampled_from([False, False, True]),
         "share": st.integers(0, 4),
         "k": st.integers(1, 5),
         "rotation_type": st.sampled_from(["angular_distance", "angular_distance", "cone_distance"]),
@@ -86,6 +87,10 @@ def arrays(case):
         B = A.copy()
     else:
         B[:, IX["tomo_id"]] = np.array(tb, float)[rng.integers(0, len(tb), len(B))]
+        if case.get("b_ids_restart"):  # second list merged from per-tomogram lists: its particle numbers restart in every tomogram
+            for t_ in np.unique(B[:, IX["tomo_id"]]):
+                sel = B[:, IX["tomo_id"]] == t_
+                B[sel, IX["subtomo_id"]] = rng.permutation(np.arange(1, sel.sum() + 1))
     return A, B
 
 
@@ -245,7 +250,19 @@ def run(case):
         B3[:, [IX["shift_x"], IX["shift_y"], IX["shift_z"]]] += np.round(rng_r.uniform(-3, 3, (len(B), 3)), 2)
     exp3, tie3 = brute(A3, B3, k, px)
     if not tie3:
-        s3 = stats_for(A3, B3)
+        # the SAME two list objects that were just analysed get their refined shifts written into their tables in place
+        # and are analysed again: the second analysis describes the lists as they are now
+        s3 = None
+        ok_a, ma3 = call(out, "Motl", lambda: cryomotl.Motl(mk(A, case["a"])))
+        ok_b, mb3 = (ok_a, ma3) if case["same"] else call(out, "Motl", lambda: cryomotl.Motl(mk(B, case["b"])))
+        if ok_a and ok_b:
+            call(out, "get_nn_stats(first analysis)", lambda: nnana.get_nn_stats(ma3, mb3, pixel_size=px, nn_number=k))
+            sh_cols = ["shift_x", "shift_y", "shift_z"]
+            ma3.df.loc[:, sh_cols] = A3[:, [IX[c_] for c_ in sh_cols]]
+            if not case["same"]:
+                mb3.df.loc[:, sh_cols] = B3[:, [IX[c_] for c_ in sh_cols]]
+            ok_s, s3 = call(out, "get_nn_stats(after in-place refinement)", lambda: nnana.get_nn_stats(ma3, mb3, pixel_size=px, nn_number=k))
+            s3 = s3 if ok_s else None
         if s3 is not None:
             rows3 = table_rows(s3)
             okr = set(rows3) == set(exp3) and all(rows3[q]["subtomo_nn_idx"] == e["nn_id"] and abs(rows3[q]["distance"] - e["dist"]) <= 1e-9 * max(1.0, abs(e["dist"])) for q, e in exp3.items())
